@@ -264,14 +264,15 @@ func TestVerif_C27(t *testing.T) {
 	}
 	schemes := []string{"http", "https", "HTTP", "ftp"}
 	users := []string{"", "u@", "u:p@", "u%40:p@"}
-	hosts := []string{"example.com", "EXAMPLE.COM", "127.0.0.1", "[::1]", "[fe80::1%25eth0]", "%41.com", "h%25x"}
+	hosts := []string{"example.com", "EXAMPLE.COM", "127.0.0.1", "[::1]", "[fe80::1%25eth0]", "%41.com", "h%25x",
+		"a%2fb", "a%23b", "a%3fb", "a%40b", "a%3ab", "a%2Fb"} // escapes that decode to URI delimiters inside the host
 	ports := []string{"", ":80", ":8080", ":"}
 	paths := []string{"", "/", "/a/b", "/a%20b", "/a/../b", "//a", "/%2e", "/a%3Fb%23c"} // last one: added to the assigned list (decoded path holds '?' and '#')
 	queries := []string{"", "?", "?a=1", "?a=1&a=2", "?a=%20+&b", "?=&", "?a=b=c"}
 	frags := []string{"", "#", "#f", "#f?x"}
 	dims := []int{len(schemes), len(users), len(hosts), len(ports), len(paths), len(queries), len(frags)}
 	maxDev := vrt.Pick(r, 3, -1)
-	alpha := seqx.Sym("/", "?", "#", "@", ":", "%", "[", "]", "a", "%2", "&", "=")
+	alpha := seqx.Sym("/", "?", "#", "@", ":", "%", "[", "]", "a", "%2", "&", "=", "%2f", "%23", "%3f", "%40") // the escapes land in host position when they come first
 	maxLen := vrt.Pick(r, 5, 6)
 	devText := fmt.Sprintf("at most %d non-canonical slots", maxDev)
 	if maxDev < 0 {
